@@ -474,11 +474,13 @@ def jaxtyped(fn=_sentinel, *, typechecker=_sentinel):
 
                 if (
                     full_signature.return_annotation is not inspect.Signature.empty
-                    and not inspect.iscoroutinefunction(fn)
+                    and not (inspect.iscoroutine(out) and _is_coroutine_function(fn))
                 ):
                     # (For a coroutine function `out` is the not-yet-awaited coroutine
                     # object, whereas the return annotation describes the awaited
-                    # result: there is nothing that can be checked at this point.)
+                    # result: there is nothing that can be checked at this point.
+                    # This includes a coroutine function that has already been wrapped,
+                    # e.g. by an earlier `jaxtyped`.)
                     #
                     # Now type-check the return value. We need to include the
                     # parameters in the type-checking here in case there are any
@@ -723,6 +725,14 @@ def _make_argpiece(p, name_to_annotation, name_to_default):
         return f"{p.name}: {name_to_annotation[p.name]}"
     else:
         return f"{p.name}: {name_to_annotation[p.name]} = {name_to_default[p.name]}"
+
+
+def _is_coroutine_function(fn):
+    try:
+        fn = inspect.unwrap(fn)
+    except ValueError:
+        pass
+    return inspect.iscoroutinefunction(fn)
 
 
 def _get_problem_arg(
